@@ -245,22 +245,25 @@ def r3_discipline(ctx):
     init = ctx.prog.func(f'{N.IMPORTER}.Importer.__init__')
     ok1 = any(isinstance(n, ast.Assign) and src(n.targets[0]) == 'self._row_number' and src(n.value) == '1' for n in walk_local(init.node))
     ctx.check(ok1, 'R3', init.loc, init.qualname, 'row-number-starts-at-1', 'the row counter starts at 1')
-    rows = [n for n in docstring_free(run_.body) if isinstance(n, ast.For)]
-    incs = [n for n in walk_local(run_.node) if isinstance(n, (ast.Assign, ast.AugAssign))
-            and any(src(t) == 'self._row_number' for t in (n.targets if isinstance(n, ast.Assign) else [n.target]))]
-    okr = len(rows) == 1 and len(incs) == 1 and incs[0] is rows[0].body[-1] and (
-        (isinstance(incs[0], ast.Assign) and src(incs[0].value) in ('self._row_number + 1', '1 + self._row_number'))
-        or (isinstance(incs[0], ast.AugAssign) and isinstance(incs[0].op, ast.Add) and src(incs[0].value) == '1'))
-    # no `continue` of the row loop skips it, except the empty-row skip
-    if okr:
-        for p_ in enumerate_paths(rows[0].body[:-1]):
-            if p_.end == 'continue':
-                conds = [src(c) for c, t in p_.conds() if t]
-                if not (len(p_.steps) == 1 and conds and 'len(row)' in conds[0]):
-                    okr = False
+    # on every path through one turn of the row loop: a row with cells adds exactly 1 to the row counter, after all its cells
+    # were read (so every cell of the row reports the same number); a skipped (empty) row adds nothing
+    from . import c02 as C02
+    facts = C02.counter_on_row_paths(ctx, run_, 'self._row_number')
+    okr = bool(facts)
+    incs = []
+    for sp, inc_idx, work_idx, active, bad in facts:
+        incs.extend(src(sp.events[i].node) for i in inc_idx)
+        if bad:
+            okr = False
+        elif not active:
+            okr = okr and not inc_idx
+        else:
+            okr = okr and len(inc_idx) == 1 and (not work_idx or inc_idx[0] > max(work_idx))
+    incs = sorted(set(incs))
     ctx.check(okr, 'R3', run_.loc, run_.qualname, 'row-number-once-per-row',
               'the row counter is incremented exactly once per non-empty row, as the last statement of the row loop',
-              f'row counter updates: {[f"{src(i)} @ line {i.lineno}" for i in incs]}: the line number reported with an error drifts')
+              f'row counter updates: {incs}: not exactly one, after the cells, on every path of a row with cells - the line number '
+              f'reported with an error drifts')
     # self.errors is written nowhere else in the importer (except __init__)
     imp = ctx.prog.cls(f'{N.IMPORTER}.Importer')
     from . import shared
